@@ -349,6 +349,14 @@ var nestFamilies = func() []family {
 		wrap("ref-group_by", "length(group_by($.one, &to_string(", ")))"), wrap("ref-map", "map(&", ", $.one)[0]"), wrap("cond-filter", "$.one[?", "]"),
 		wrap("rhs-projection", "$.one[*].[", "][0]"), wrap("rhs-flatten", "$.one[].[", "][0]"), wrap("let-binding", "let $y = ", " in [$y, $y][0]"),
 		wrap("arg-contains", "contains($.one, ", ") || @"), wrap("arg-zip", "zip($.one, to_array(", "))[0][1]"),
+		// idioms that implementations fuse (lookup = filter | [0], first / last /
+		// count of a filtered, projected, sorted or reversed array), each one
+		// the source of the next; the lookups miss, hit, or hit once and
+		// then miss
+		wrap("lookup-miss-num", "(", ".v[?k == `9`] | [0])"), wrap("lookup-miss-str", "(", ".v[?k == 'x'] | [0])"), wrap("lookup-hit-then-miss", "(", ".a[?k == `0`] | [0])"),
+		wrap("lookup-last", "(", ".v[?k != `9`] | [-1])"), wrap("filter-count", "(", ".v[?k == `9`] | length(@))"), wrap("liststar-first", "(", ".v[*] | [0])"), wrap("flatten-first", "(", ".v[] | [0])"),
+		wrap("reverse-first", "(", ".v[::-1] | [0])"), wrap("sort_by-first", "(sort_by(", ".v, &k) | [0])"), wrap("values-first", "(", ".* | [0])"), wrap("lookup-field", "(", ".v[?k == `1`] | [0].v)"),
+		wrap("not_null-first", "(not_null(", ".v, `[]`) | [0])"), wrap("lookup-index", "(", ".v[?k == `9`][0])"), wrap("lookup-or", "(", ".v[?k == `9`] | [0] || @)"),
 		// nesting in the data: two equal values nested n levels deep (a chain
 		// of single-member objects, of one-element arrays, or alternating),
 		// O(n) nodes each; every operation that walks them must stay polynomial
